@@ -17,6 +17,17 @@ def H(name, exe, quick, thorough, **kw):
     return d
 
 
+import runner as _runner  # noqa: E402
+
+A_FUZZ = ("thorough tier adds coverage-guided exploration (clang-14 libFuzzer + ASan + UBSan) of the decoder translation units compiled from the "
+          "working tree; the oracle lives in the fuzz target; executions, covered edges and kept corpus inputs are reported")
+
+
+def FZ(name, target, corpus, runs, max_len=1024, jobs=12):
+    return dict(name=name, py=_runner.run_fuzz_part, flavour="fuzz", targets=[target], also_build={"asan": ["h_codec"]},
+                fz=target, corpus=corpus, runs=runs, max_len=max_len, jobs=jobs, tiers=("thorough",))
+
+
 P("C08", "exploration",
   "case = one message (length swept 0..300 then boundary-biased up to 1 MiB) x split patterns x one HMAC key (0..200 bytes) x tag mutations, "
   "each compared with OpenSSL; distinct = (length class, key-length class, length)",
@@ -44,7 +55,7 @@ P("C12", "exploration",
 P("C13", "exploration",
   "case = one signed message (6 types x versions 1..4 x key lengths) with every single-bit flip (small messages), every truncation, extensions, "
   "16-byte block swaps, other keys, and bodies mutated then re-signed by the reference; oracle = OpenSSL HMAC + plain decode; distinct = (type, version, length, key length)",
-  [H("main", "h_crypto", 240, 24000)], [A_SAN, A_OSSL],
+  [H("main", "h_crypto", 240, 24000), FZ("fuzz", "fz_message", "msg", 400000)], [A_SAN, A_OSSL, A_FUZZ],
   {"signed.buffers-checked": 20000, "signed.accepted": 100, "signed.rejected": 10000})
 
 import post_codec  # noqa: E402
@@ -59,26 +70,26 @@ P("C16", "exploration",
   "case = batch of hostile inputs derived from a valid encoding (length fields set to 0/len+-k/2^31/2^32-1, every truncation, header mutations, trailing bytes, random bytes) "
   "in exact-size heap buffers; oracle: no exception, no sanitizer report, re-encoding of anything accepted is a prefix of the input (boolean bytes by truthiness), "
   "decode_signed with a reference MAC agrees with decode; distinct = (type, mode, length)",
-  [H("main", "h_codec", 4000, 600000)], [A_SAN, A_OSSL],
+  [H("main", "h_codec", 4000, 600000), FZ("fuzz", "fz_message", "msg", 1000000)], [A_SAN, A_OSSL, A_FUZZ],
   {"decode.inputs": 50000, "decode.accepted": 1000})
 
 P("C17", "exploration",
   "case = one manifest with list sizes 0/1/254/255/256/257/300 and string lengths 0/1/254/255/256, 65534/65535/65536+ in one chosen dimension, any expiry in the time_point range; "
   "independent predicate representable(m) decides: round trip equal up to whole-second expiry / empty scheme -> transport, or encode must throw; distinct = (dimension, representable, sizes)",
-  [H("main", "h_codec", 4000, 400000)], [A_SAN],
+  [H("main", "h_codec", 4000, 400000), FZ("fuzz", "fz_manifest", "man", 400000, max_len=2048)], [A_SAN, A_FUZZ],
   {"manifest.representable": 1500, "manifest.unrepresentable": 300, "manifest.roundtrips": 1500})
 
 P("C18", "exploration",
   "case = batch of URIs derived from a valid manifest: expiry field set to u64 boundaries (0, 2^31, 2^33, INT64_MAX/1e9 +-1, 2^63-1, 2^63, 2^64-1, ...), every truncation, corrupted base64, "
   "mutated fields/counts, random strings; oracle: returns or throws std::invalid_argument, nothing else, no UBSan/ASan report; distinct = (mode, size, case%64)",
-  [H("main", "h_codec", 3000, 500000)], [A_SAN, "UBSan decides the undefined-behaviour part (signed overflow in time conversions)"],
+  [H("main", "h_codec", 3000, 500000), FZ("fuzz", "fz_manifest", "man", 1000000, max_len=2048)], [A_SAN, A_FUZZ, "UBSan decides the undefined-behaviour part (signed overflow in time conversions)"],
   {"manifest.decode-inputs": 30000, "manifest.expiry-boundary-inputs": 3000})
 
 P("C33", "exploration",
   "case = one datagram (exact-size heap copy): canonical Binding Success responses with unknown attributes around one (XOR-)MAPPED-ADDRESS (IPv4/IPv6), wrong type / transaction id, "
   "attribute overrunning the declared message length but not the datagram, lying attribute lengths, misalignment, truncations, mutations, random bytes <= 512; "
   "oracle = strict RFC 5389 reference walk (soundness) + canonical responses must be reported exactly; distinct = (mode, family, xor, reported, size)",
-  [H("main", "h_codec", 60000, 6000000)], [A_SAN],
+  [H("main", "h_codec", 60000, 6000000), FZ("fuzz", "fz_stun", "stun", 1500000, max_len=524)], [A_SAN, A_FUZZ],
   {"stun.datagrams": 50000, "stun.address-reported": 10000, "stun.canonical": 10000})
 
 P("C37", "exploration",
